@@ -222,6 +222,19 @@ func (vc *VC) alloc(st *State, t types.Type) Term {
 	na := vc.freshSort("alloc", "Int")
 	st.assume(eq(na.S, "(+ "+st.alloc+" 1)"))
 	st.alloc = na.S
+	// a freshly allocated struct starts with its mutex fields unlocked
+	if pt, ok := under(t).(*types.Pointer); ok {
+		et := vc.ts.apply(pt.Elem())
+		if stt, ok := under(et).(*types.Struct); ok {
+			for i := 0; i < stt.NumFields(); i++ {
+				if n, ok := stt.Field(i).Type().(*types.Named); ok && n.Obj().Pkg() != nil && n.Obj().Pkg().Path() == "sync" && (n.Obj().Name() == "Mutex" || n.Obj().Name() == "RWMutex") {
+					hn := vc.lockHeapName(et, stt.Field(i).Name())
+					h := vc.heapGet(st, hn, "(Array Int Int)", nil)
+					st.heap[hn] = Term{S: store(h.S, r.S, "0"), Sort: "(Array Int Int)"}
+				}
+			}
+		}
+	}
 	return r
 }
 
